@@ -1,5 +1,8 @@
 import AasVerif.Lemmas.LexBlock
 import AasVerif.Lemmas.LexLine
+import AasVerif.Lemmas.LexLineCppPy
+import AasVerif.Lemmas.LexPyDoc
+import AasVerif.Lemmas.Indent
 import AasVerif.Lemmas.Xml
 import AasVerif.Gen.Descr
 /-!
@@ -68,7 +71,7 @@ open AasVerif AasVerif.Descr AasVerif.Lex AasVerif.Gen.Descr
 /-- *Table*: `str.splitlines` splits at least wherever a target language ends a line
 (Java, JavaScript/TypeScript, C++, Go, C#; Python: LF and CR). -/
 theorem splitlines_covers_line_terminators :
-    ∀ cfg ∈ [java, js, cpp, go, cs, ⟨[10, 13], false, []⟩], ∀ x ∈ cfg.nls, PyStr.isBreak x = true := by
+    ∀ cfg ∈ [java, js, cpp, go, cs, ⟨[10, 13], false, [], [10, 13]⟩], ∀ x ∈ cfg.nls, PyStr.isBreak x = true := by
   decide
 
 /-- Go: when the wrapper returns `out`, then `out` followed by the next line lexes as one `//`
@@ -178,9 +181,8 @@ namespace AasVerif.Props.C20
 open AasVerif AasVerif.Descr AasVerif.Lex AasVerif.Gen.Descr
 
 /-! ## Python docstring, C++ `///`: concrete facts
-(the general theorems `docstring_one_token`, `cpp_line_comments_only`, `py_line_comments_only`
-are planned, not proved — see design.d/C20.md; the real wrappers are judged by CPython, g++ and
-the spec lexers on every run) -/
+(witnesses of the defects of the unchanged tree and of the repaired behaviour; the general theorems
+`docstring_one_token`, `cpp_line_comments_only`, `py_line_comments_only` follow below) -/
 
 def sayHi : Text := [115, 97, 121, 32, 34, 104, 105, 34]
 
@@ -215,6 +217,234 @@ theorem cpp_needs_backslash_fix :
 theorem cpp_backslash_fixed_example :
     lexC cpp .code (lineCommentText cppEmpty cppPre (cppFixLine cppTrail cppRepl) [97, 92, 32, 11, 98] ++ [10, 120])
       = [.comment [47, 32, 97, 38, 35, 57, 50, 59, 32], .nl, .comment [47, 32, 98], .nl, .code 120] := by
+  decide
+
+end AasVerif.Props.C20
+
+namespace AasVerif.Props.C20
+open AasVerif AasVerif.Descr AasVerif.Lex AasVerif.Gen.Descr
+
+/-! ## Python docstring: one string token for EVERY text -/
+
+theorem docstringText_py (t : Text) :
+    docstringText pyDocRepls pyDocLimit pyDocNoShortSuffix pyDocShort pyDocLong t
+      = if 3 + (esc t).length + 3 < 70 ∧ endsWith [34] (esc t) = false
+        then 34 :: 34 :: 34 :: (esc t ++ [34, 34, 34])
+        else 34 :: 34 :: 34 :: 10 :: (esc t ++ [10, 34, 34, 34]) := rfl
+
+/-- Python: for EVERY text without NUL the output of `docstring` is exactly ONE string token —
+quotes, triple quotes, backslashes (also at the end of the text) cannot close the string early or
+leave it open — and the token denotes the text (short form) or LF + text + LF (long form), with the
+line ends CR LF / CR read as LF as the tokenizer does (`pyNl`). -/
+theorem docstring_one_token (t : Text) (h0 : ∀ x ∈ t, x ≠ 0) :
+    lexPython (docstringText pyDocRepls pyDocLimit pyDocNoShortSuffix pyDocShort pyDocLong t)
+      = [.str (pyNl t)] ∨
+    lexPython (docstringText pyDocRepls pyDocLimit pyDocNoShortSuffix pyDocShort pyDocLong t)
+      = [.str (pyNl (10 :: (t ++ [10])))] := by
+  rw [docstringText_py]
+  by_cases hc : 3 + (esc t).length + 3 < 70 ∧ endsWith [34] (esc t) = false
+  · -- the short form: the escaped text does not end in a quote
+    rw [if_pos hc]
+    left
+    have hlast : t.getLast? = some 34 → ([] : Text) ≠ [] := by
+      intro hl
+      have h1 : (esc t).getLast? = some 34 := by rw [esc_getLast t.length t (Nat.le_refl _)]; exact hl
+      have h2 := (endsWith_quote (esc t)).mpr h1
+      rw [hc.2] at h2
+      cases h2
+    have := s3_scan [] (Or.inl rfl) t.length t [] (Nat.le_refl _) h0 hlast
+    simp only [List.nil_append, List.append_nil, List.reverse_nil] at this
+    unfold lexPython
+    rw [lexPy, this]
+  · -- the long form: the text on a line of its own
+    rw [if_neg hc]
+    right
+    have := s3_scan [10] (Or.inr rfl) t.length t [10] (Nat.le_refl _) h0 (fun _ => by simp)
+    unfold lexPython
+    rw [lexPy, s3_plain [] _ 10 (by decide) (by decide) (by decide) (by intro h; exact absurd h.1 (by decide))]
+    rw [show ([10, 34, 34, 34] : Text) = [10] ++ [34, 34, 34] from rfl, this]
+    rw [pyNl_cons 10 _ (by decide)]
+    rfl
+
+/-- Without carriage returns the token denotes exactly the text (or LF + text + LF). -/
+theorem docstring_denotes_text (t : Text) (h0 : ∀ x ∈ t, x ≠ 0) (h13 : ∀ x ∈ t, x ≠ 13) :
+    lexPython (docstringText pyDocRepls pyDocLimit pyDocNoShortSuffix pyDocShort pyDocLong t)
+      = [.str t] ∨
+    lexPython (docstringText pyDocRepls pyDocLimit pyDocNoShortSuffix pyDocShort pyDocLong t)
+      = [.str (10 :: (t ++ [10]))] := by
+  have h1 : pyNl t = t := pyNl_id t h13
+  have h2 : pyNl (10 :: (t ++ [10])) = 10 :: (t ++ [10]) := pyNl_id _ (by
+    intro x hx
+    rcases List.mem_cons.mp hx with rfl | hx
+    · decide
+    · rcases List.mem_append.mp hx with hx | hx
+      · exact h13 x hx
+      · simp only [List.mem_singleton] at hx; subst hx; decide)
+  have := docstring_one_token t h0
+  rw [h1, h2] at this
+  exact this
+
+/-- The hypotheses are satisfiable on a nasty text: `\"""" \` (backslash, four quotes, blank, backslash). -/
+example : (∀ x ∈ ([92, 34, 34, 34, 34, 32, 92] : Text), x ≠ 0) ∧ (∀ x ∈ ([92, 34, 34, 34, 34, 32, 92] : Text), x ≠ 13) := by
+  decide
+
+/-- The hypothesis "no NUL" is needed: a NUL in the text is a NUL in the source file, which Python
+does not read (the front end never passes a NUL on: recorded assumption of the check). -/
+theorem docstring_one_token_full_fails :
+    lexPython (docstringText pyDocRepls pyDocLimit pyDocNoShortSuffix pyDocShort pyDocLong [97, 0])
+      = [.bad "nul"] := by
+  decide
+
+/-! ## C++ `///` and Python `#:` line comments: general form -/
+
+/-- C++: for EVERY text, the emitted block followed by the next line lexes as one `//` comment per
+line of the text — each line starts with the marker whatever line-boundary characters (CR, VT, FF,
+FS, GS, RS, NEL, LS, PS) the text holds, no line ends in a splicing backslash (+ blanks, also GCC's
+VT/FF/NUL/CR white space) — and the next line is not affected. -/
+theorem cpp_line_comments_text (t rest : Text) (hne : splitLines t ≠ []) :
+    lexC cpp .code (lineCommentText cppEmpty cppPre (cppFixLine cppTrail cppRepl) t ++ 10 :: rest)
+      = ((splitLines t).flatMap fun l =>
+          [.comment (if PyStr.hasNonSpace l then 47 :: 32 :: cppFixLine cppTrail cppRepl l else [47]), .nl])
+        ++ lexC cpp .code rest := by
+  have hsub : ∀ x ∈ cpp.nls, PyStr.isBreak x = true := splitlines_covers_line_terminators cpp (by simp)
+  have := lexC_joined cpp (by decide) hsub
+    (fun l => if PyStr.hasNonSpace l then 47 :: 32 :: cppFixLine cppTrail cppRepl l else [47])
+    (by
+      intro l hl
+      have h13 : ∀ x ∈ l, x ≠ 13 := by
+        intro x hx h; have := hl x hx; rw [h] at this; revert this; decide
+      constructor
+      · intro x hx
+        split at hx
+        · rcases List.mem_cons.mp hx with rfl | hx
+          · decide
+          · rcases List.mem_cons.mp hx with rfl | hx
+            · decide
+            · rcases cppFixLine_mem l x hx with hx | hx
+              · exact not_nl_of_not_break cpp hsub x (hl x hx)
+              · simp only [cppRepl, List.mem_cons, List.mem_nil_iff, or_false] at hx
+                rcases hx with rfl | rfl | rfl | rfl | rfl <;> decide
+        · simp only [List.mem_singleton] at hx; subst hx; decide
+      · split
+        · exact cppFixLine_no_splice l h13
+        · decide) t rest hne
+  rw [← this]
+  congr 2
+  unfold lineCommentText
+  congr 1
+  apply List.map_congr_left
+  intro l _
+  split <;> rfl
+
+/-- C++: the same for what `documentation_comment` returns. -/
+theorem cpp_line_comments_only (t out rest : Text) (hne : splitLines t ≠ [])
+    (h : lineComment cppEmpty cppPre (cppFixLine cppTrail cppRepl) t = .ok out) :
+    lexC cpp .code (out ++ 10 :: rest)
+      = ((splitLines t).flatMap fun l =>
+          [.comment (if PyStr.hasNonSpace l then 47 :: 32 :: cppFixLine cppTrail cppRepl l else [47]), .nl])
+        ++ lexC cpp .code rest := by
+  have hout := stripped_ok h
+  subst hout
+  exact cpp_line_comments_text t rest hne
+
+/-- The hypotheses are satisfiable: `a\ <VT>b<U+2028>` is returned by the wrapper. -/
+example : splitLines [97, 92, 32, 11, 98, 8232, 99] ≠ [] ∧
+    ∃ out, lineComment cppEmpty cppPre (cppFixLine cppTrail cppRepl) [97, 92, 32, 11, 98, 8232, 99] = .ok out := by
+  exact ⟨by decide, _, rfl⟩
+
+/-- Python: for EVERY text without NUL, the emitted `#:` block followed by the next line lexes as one
+comment per line of the text, and the next line is not affected. -/
+theorem py_line_comments_text (t rest : Text) (h0 : ∀ x ∈ t, x ≠ 0) (hne : splitLines t ≠ []) :
+    lexPython (lineCommentText pyEmpty pyPre id t ++ 10 :: rest)
+      = ((splitLines t).flatMap fun l =>
+          [.comment (if PyStr.hasNonSpace l then 58 :: 32 :: l else [58]), .nl])
+        ++ lexPython rest := by
+  have := lexPy_joined (fun l => if PyStr.hasNonSpace l then 58 :: 32 :: l else [58])
+    (by
+      intro l hl x hx
+      split at hx
+      · rcases List.mem_cons.mp hx with rfl | hx
+        · decide
+        · rcases List.mem_cons.mp hx with rfl | hx
+          · decide
+          · have hb := (hl x hx).1
+            refine ⟨?_, ?_, (hl x hx).2⟩
+            · intro h; rw [h] at hb; revert hb; decide
+            · intro h; rw [h] at hb; revert hb; decide
+      · simp only [List.mem_singleton] at hx; subst hx; decide) t rest h0 hne
+  unfold lexPython
+  rw [← this]
+  congr 2
+  unfold lineCommentText
+  congr 1
+  apply List.map_congr_left
+  intro l _
+  split <;> rfl
+
+/-- Python: the same for what `documentation_comment` returns. -/
+theorem py_line_comments_only (t out rest : Text) (h0 : ∀ x ∈ t, x ≠ 0) (hne : splitLines t ≠ [])
+    (h : lineComment pyEmpty pyPre id t = .ok out) :
+    lexPython (out ++ 10 :: rest)
+      = ((splitLines t).flatMap fun l =>
+          [.comment (if PyStr.hasNonSpace l then 58 :: 32 :: l else [58]), .nl])
+        ++ lexPython rest := by
+  have hout := stripped_ok h
+  subst hout
+  exact py_line_comments_text t rest h0 hne
+
+example : (∀ x ∈ ([97, 12, 34, 34, 34, 133, 98] : Text), x ≠ 0) ∧ splitLines [97, 12, 34, 34, 34, 133, 98] ≠ [] ∧
+    ∃ out, lineComment pyEmpty pyPre id [97, 12, 34, 34, 34, 133, 98] = .ok out := by
+  exact ⟨by decide, by decide, _, rfl⟩
+
+/-! ## Block comments: the pieces of a rendered description -/
+
+/-- TypeScript and Java: the replacement runs over the whole rendered text, so a `*` at the end of
+one rendered piece and a `/` at the start of the next one cannot close the comment either. -/
+theorem block_comment_adjacent_pieces (pieces : List Text) :
+    (∃ body, lexC js .code (blockCommentText tsRepls tsOpen tsPre tsSuf tsEmpty tsClose pieces.flatten)
+      = [.comment body]) ∧
+    (∃ body, lexJava (blockCommentText javaRepls javaOpen javaPre javaSuf javaEmpty javaClose pieces.flatten)
+      = some [.comment body]) :=
+  ⟨⟨_, ts_block_comment_one_token _⟩, ⟨_, java_block_comment_one_token _⟩⟩
+
+end AasVerif.Props.C20
+
+namespace AasVerif.Props.C20
+open AasVerif AasVerif.Lex
+
+/-! ## TypeScript string literals and U+2028 / U+2029 -/
+
+/-- `typescript/common.py:string_literal` copies U+2028 and U+2029 unescaped. Read with the rules of
+ECMAScript 2019 and later (the stated edition) that is one string literal; U+2028 still ends a `//` comment. -/
+theorem ts_string_literal_allows_ls_ps :
+    lexC js .code [34, 97, 0x2028, 0x2029, 34] = [.str [97, 0x2028, 0x2029]] ∧
+    lexC js .code [47, 47, 97, 0x2028, 98] = [.comment [97], .nl, .code 98] := by
+  decide
+
+end AasVerif.Props.C20
+
+namespace AasVerif.Props.C20
+open AasVerif AasVerif.Descr AasVerif.Lex AasVerif.Indent AasVerif.Gen.Descr
+
+/-! ## The indentation helper: rendered code is cut only at its line feeds -/
+
+/-- `common.indent_but_first_line`: for EVERY non-empty rendered code and every indention without LF,
+the LF-separated lines of the result are exactly the LF-separated lines of the code (a last empty one
+dropped), the indention in front of all non-empty lines but the first. No other line-boundary character
+(U+2028, U+0085, FS … inside a string literal) cuts a line: a literal stays on its line, entire. -/
+theorem indent_splits_only_at_lf (ind t : Text) (hind : 10 ∉ ind) (ht : t ≠ []) :
+    splitChar 10 (indentButFirst indentSplit indentJoin ind t) = indentLines ind (codeLines 10 t) :=
+  indentButFirst_lines 10 ind t hind ht
+
+example : (10 : Nat) ∉ ([32, 32] : Text) ∧ ([34, 0x2028, 34, 44, 10, 34, 98, 34] : Text) ≠ [] := by decide
+
+/-- With `str.splitlines` in the place of `split("\n")` (the defect of the unchanged tree) the statement
+is false: the TypeScript literal `"<LS>"` is cut in two lines, neither of which is a string token. -/
+theorem indent_with_splitlines_full_fails :
+    let old := joinNl (indentLines [32, 32] (splitLines [34, 0x2028, 34]))
+    splitChar 10 old ≠ indentLines [32, 32] (codeLines 10 [34, 0x2028, 34]) ∧
+    lexC js .code old = [.bad "newline-in-string", .code 32, .code 32, .bad "unterminated-string"] ∧
+    lexC js .code (indentButFirst indentSplit indentJoin [32, 32] [34, 0x2028, 34]) = [.str [0x2028]] := by
   decide
 
 end AasVerif.Props.C20
